@@ -566,7 +566,7 @@ fn pick_shape(rng: &mut Rng) -> Shape {
 }
 
 fn gen(a: &Args) {
-    let mut w = CaseWriter::new(&a.out, "C19", "Corr.C19", 120);
+    let mut w = CaseWriter::new(&a.out, "C19", "Corr.C19", 40);
     let mut sut = Sut::new();
     if let Some(lines) = a.replay_lines() {
         for l in lines {
@@ -580,7 +580,7 @@ fn gen(a: &Args) {
         return;
     }
     let mut rng = Rng::new(a.seed);
-    let n_meta = if a.thorough() { 3600 } else { 420 };
+    let n_meta = if a.thorough() { 3600 } else { 240 };
     for k in 0..n_meta {
         let (stream, cfg) = stream_cfg(k);
         let shape = pick_shape(&mut rng);
@@ -589,7 +589,7 @@ fn gen(a: &Args) {
         emit_meta(&mut w, &mut sut, &m, stream);
     }
     // rule-level cases: the real ConstantFoldingRule / PredicatePushdownRule on generated plans
-    let n_rule = if a.thorough() { 4000 } else { 500 };
+    let n_rule = if a.thorough() { 4000 } else { 300 };
     for k in 0..n_rule {
         let (stream, cfg) = stream_cfg(k);
         if k % 2 == 0 {
@@ -722,7 +722,7 @@ fn all_queries(m: &MetaCase) -> Vec<Query> {
 /// finding class of a query (rough port of q_class, coq/Model/PlanClass.v; the authoritative classification is Coq's)
 fn query_class(q: &Query, db: &[Table]) -> u32 {
     let d = dangers(q, db);
-    for (tag, k) in [("star", 2), ("expritem", 3), ("three", 9), ("push_blind", 4), ("push_right_cond", 5), ("outer_where", 6), ("right_names", 7), ("on_residual", 8), ("negzero_key", 10)] {
+    for (tag, k) in [("three", 9)] {
         if d.contains(&tag) { return k; }
     }
     0
